@@ -40,11 +40,18 @@ def uninstall():
 class VSelector(selectors.DefaultSelector):
     """when nothing is ready, jump the virtual clock by the requested timeout"""
     on_idle = None
+    busy = 0
 
     def select(self, timeout=None):
         ev = super().select(0)
         if ev or timeout == 0:
+            # a task spinning on sleep(0) keeps the loop busy for ever: after 500 busy iterations the scheduler acts anyway
+            self.busy += 1
+            if self.busy > 500 and self.on_idle is not None:
+                self.busy = 0
+                self.on_idle(None)
             return ev
+        self.busy = 0
         if self.on_idle is not None:
             self.on_idle(timeout)
         elif timeout:
